@@ -93,6 +93,15 @@ def step (line : String) : String :=
     match parseInt x with
     | some x => "d " ++ dblStr (ofInt64 x)
     | none => "bad-op"
+  | ["A", v, nb, ib, k] =>
+    match fromHex v with
+    | some v =>
+      let known : Option Int := if k == "-" then none else parseInt k
+      if k != "-" && known.isNone then "bad-op"
+      else match argDecision v (nb == "1") (ib == "1") known with
+        | some r => s!"v={b r.invalidValue} b={b r.notBool} r={b r.boolRange}"
+        | none => "E"
+    | none => "bad-op"
   | "D" :: ncall :: fmt :: decls =>
     match ncall.toNat?, fmt.toNat?, parseDecls decls with
     | some ncall, some fmt, some ds =>
